@@ -70,6 +70,10 @@ Definition mps_from_list (shapes : list (list nat)) (r : nat) : option mpt :=
                  (fun m i => let site := r - 1 - i in attach_left m site (nth site shapes []) (site =? 0)) in
   forM (seq (S r) (length shapes - S r)) ml (fun m site => attach_right m site (nth site shapes []))).
 
+(* non_negativity_check(root_site) *)
+Definition mps_from_list_z (shapes : list (list nat)) (r : Z) : option mpt :=
+  if (r <? 0)%Z then None else mps_from_list shapes (Z.to_nat r).
+
 (* the documented input format: tensor i has legs [left, right, open...], the two end tensors
    have a single bond leg *)
 Fixpoint mps_shapes_mid (bl : nat) (bonds : list nat) (opens : list (list nat)) : list (list nat) :=
@@ -122,8 +126,7 @@ Definition mps_cps_tensors (sv dim nsites : Z) (bonds : option (list Z)) : optio
 
 Definition mps_cps (sv dim nsites : Z) (bonds : option (list Z)) (root_site : Z) : option (mpt * list (list nat)) :=
   bind (mps_cps_tensors sv dim nsites bonds) (fun ts =>
-  if (root_site <? 0)%Z then None else
-  bind (mps_from_list (map fst ts) (Z.to_nat root_site)) (fun m => Some (m, map snd ts))).
+  bind (mps_from_list_z (map fst ts) root_site) (fun m => Some (m, map snd ts))).
 
 (* ================================================================================================ *)
 (* StarTreeTensorNetwork (star.py): centre = identifier 0, arm (c, j) = 1 + j * C + c  (c < C)       *)
